@@ -242,7 +242,8 @@ def run_property(pid, tier, modname, cases, opts=None, level="model_checking", a
         path = os.path.join(VERIF, "replays", "%s_%03d.json" % (pid, n))
         with open(path, "w") as f:
             json.dump(dict(property=pid, module=modname, case=case, what=v['what'], signature=sig,
-                           values=v['values'], choices=v['choices'], detail=v.get('detail', {})), f, indent=1,
+                           values=v['values'], choices=v['choices'], detail=v.get('detail', {}),
+                           tol=case.get('replay_tol', 1e-6)), f, indent=1,
                       default=str)
         ok, out = replay_file(path)
         seen_sig.add(sig)
